@@ -704,6 +704,8 @@ class C01(Check):
                   "when the Lean build is broken. Trusted: Lean kernel, Spec/OF10Layouts.lean transcription, the translator's canonicalisation (checked by bytes on every run), hand models.")
     rule = ("case = one codec object described as a JSON spec built from the library's own classes; corpus = per-field boundary sweep {0,1,max,sign bit} of every translated class, "
             "strings of every length and every class of character (ASCII, U+0080..U+00FF incl. as last byte of a full field, beyond U+00FF, NUL inside/at either end, one too long; as str and as bytes; unrepresentable ones must be refused), "
+            "every message/action/struct class decoded behind 8, 12, 24, 64, 780 bytes inside a larger buffer; mutate-after-measure histories (len/pack/show/==/hash, then one in-place change of a scalar, payload, string, "
+            "action/port/queue/property/stats list or element, nx_match mask or value, then pack == pack of a fresh object of the new value), "
             "nx_action_learn with immediates of 1..64 and wider bits x every source/destination kind laid out from nicira-ext.h's description, spec lists of every size mod 8, bundles with 0..12 slaves, action lists 0..8183, payloads 0..1500, stats replies with 0..40 entries, every NXM type with/without mask; "
             "non-trivial = pack() produced bytes and the object has at least one non-default field")
 
